@@ -93,8 +93,8 @@ func c19IsRecvOf(f *ssa.Function, typ string) bool {
 func c19(r *core.Run) {
 	p := r.P
 	defer c19Extra(r, logxPkg)
-	r.Explanation = "Decides on the current source: every *os.File obtained by a RotateLogger method from os.Create/os.OpenFile is stored into l.fp on the success path (and no file handle opened in lib/logx is discarded); rotate renames the current file before re-creating it (os.Create truncates), closes the old handle first, runs the post-rotation clean-up only after a successful rename and on the renamed file; write asks the rule before writing, rotates only when told to, resets currentSize/marks the rule only after a successful rotate and adds len(v) after each write; the size rule is fed currentSize(+len(v)), compares it against maxSize = MB·2^20 in the right direction and only when maxSize > 0; os.Remove is called only on the rule's OutdatedFiles and on a log file whose gzip copy was written and closed without error; SizeLimitRotateRule.OutdatedFiles sorts before slicing, marks the prefix files[:len−maxBackups] only under maxBackups > 0 ∧ len > maxBackups and keeps the suffix, and marks by age only names below the boundary; Close closes done, waits for the worker, syncs and closes the file, once; the worker is registered before it starts and writes every received record."
-	r.NotDecided = "file contents after arbitrary write/rotate histories (including records still queued when Close is called and the window between a failed rotate and the next one), the glob patterns and date arithmetic of the retention rules, behaviour of the OS calls."
+	r.Explanation = "Decides on the current source: every *os.File obtained by a RotateLogger method from os.Create/os.OpenFile is stored into l.fp on the success path (and no file handle opened in lib/logx is discarded); rotate renames the current file before re-creating it (os.Create truncates), closes the old handle first, runs the post-rotation clean-up only after a successful rename and on the renamed file; write asks the rule before writing, rotates only when told to, resets currentSize/marks the rule only after a successful rotate and adds len(v) after each write; the size rule is fed currentSize(+len(v)), compares it against maxSize = MB·2^20 in the right direction and only when maxSize > 0; os.Remove is called only on the rule's OutdatedFiles and on a log file whose gzip copy was written and closed without error; SizeLimitRotateRule.OutdatedFiles sorts before slicing, marks the prefix files[:len−maxBackups] only under maxBackups > 0 ∧ len > maxBackups and keeps the suffix, and marks by age only names below the boundary; Close closes done, waits for the worker, syncs and closes the file, once; the worker is registered before it starts and writes every received record; per rotate rule the backup name, the glob pattern and the retention boundary are built from the same string fields of the rule (file name, delimiter); while rotate renames only under a non-empty l.backup, no function leaves a logger with an opened file in l.fp and l.backup unset."
+	r.NotDecided = "file contents after arbitrary write/rotate histories (including records still queued when Close is called and the window between a failed rotate and the next one), the text of the glob patterns beyond the rule fields they are built from, the date arithmetic of the retention rules, behaviour of the OS calls."
 
 	var loggerFns []*ssa.Function
 	for _, f := range p.PkgFuncs(logxPkg) {
